@@ -53,7 +53,7 @@ def _run_one(file, func, timeout, use_models, path_timeout, extra_env=None):
     if use_models:
         cmd += ["--extra_plugin", PLUGIN]
     env = dict(os.environ)
-    env["PYTHONPATH"] = common.VERIF + os.pathsep + os.path.dirname(file) + os.pathsep + env.get("PYTHONPATH", "")
+    env["PYTHONPATH"] = common.REPO + os.pathsep + common.VERIF + os.pathsep + os.path.dirname(file) + os.pathsep + env.get("PYTHONPATH", "")
     env["PYTHONDONTWRITEBYTECODE"] = "1"
     env["PYTHONHASHSEED"] = "0"
     if extra_env:
